@@ -1312,6 +1312,20 @@ func (env *Env) havocTarget(st *State, x Expr) error {
 			e.havocAll(st)
 			return nil
 		}
+		if _, shadow := env.vars[x.Name]; x.Name == "views" && !shadow {
+			// views: every layered ghost variable, at every layer
+			for _, gn := range e.DB.Layered {
+				if g, ok := e.DB.GhostVars[gn]; ok {
+					sort, _, err := e.resolveTypeExpr(g.T, g.PkgPath, g.Imports)
+					if err != nil {
+						return err
+					}
+					e.heapGet(st, "G|"+g.Name, sort)
+					e.heapHavoc(st, "G|"+g.Name)
+				}
+			}
+			return nil
+		}
 		if g, ok := e.DB.GhostVars[x.Name]; ok {
 			sort, _, err := e.resolveTypeExpr(g.T, g.PkgPath, g.Imports)
 			if err != nil {
